@@ -153,6 +153,17 @@ func scenario(t *testing.T, name, role string) {
 			})
 			at(&wg, T/2, func() { _ = r.S.Stop() })
 			at(&wg, T/2+20*time.Millisecond, func() { r.S.OnChangeState(utils.EventLogout, func() bool { return true }) })
+		case "relogon_after_stop_vs_context": // the session is stopped, the peer answers and logs on again while the application reads Context()
+			logon()
+			at(&wg, 100*time.Millisecond, func() { _ = r.S.Stop() })
+			at(&wg, 200*time.Millisecond, func() { inbound(r, &pseq, &pmu, "logout", nil) })
+			for k := 0; k < 8; k++ {
+				d := 300*time.Millisecond + time.Duration(k)*time.Millisecond
+				at(&wg, d, func() { _ = r.S.Context().Err() })
+			}
+			at(&wg, 300*time.Millisecond, func() { inbound(r, &pseq, &pmu, "logon", nil) })
+			at(&wg, 300*time.Millisecond, func() { _ = r.S.IsLogged() })
+			at(&wg, 400*time.Millisecond, func() { _ = r.S.Context().Err() })
 		case "sessions_sharing_an_unmarshaller": // two sessions of one application decode at the same instants with the ONE unmarshaller it installed in both
 			r2, err := sess.NewRig(sess.Cfg{Role: role, HbMin: 1, HbMax: 60, HbCfg: 1, EncCfg: "0", CloseMs: 500, Buf: 10})
 			if err != nil {
